@@ -61,6 +61,9 @@ pub struct TestObs {
     /// how many results the report contains for this test case
     pub results: u32,
     pub report: Report,
+    /// what the second, third ... result for this test case says (`results` > 1)
+    #[serde(default, skip_serializing_if = "Vec::is_empty")]
+    pub further: Vec<Report>,
     /// Lib tier: the executor's Output for this test case, if it returned one.
     /// Cli tier: the `output` object of the JSON report (present for failed test cases only)
     pub raw: Option<RawOut>,
